@@ -1485,4 +1485,7 @@ func c15_runC15(e *Env) {
 	// 5. values that carry more than == may look at: error objects holding related Go errors;
 	// set / map / list objects reached through a history (c15hist.go)
 	c15Histories(e, g)
+
+	// 6. byte_slice and time values, and their meeting with strings and other scalars (c15x.go)
+	c15XPairs(e, g)
 }
